@@ -44,6 +44,9 @@ long        vfs_nlog;
 static long vfs_caplog;
 int         vfs_log_on;
 long        vfs_api_seq;
+unsigned char *vfs_kind_trace;
+long           vfs_kind_trace_n, vfs_kind_trace_cap;
+static int     kind_trace_on;
 long        vfs_use_after_close;
 long        vfs_contract_breach;
 char        vfs_last_event[160];
@@ -417,6 +420,13 @@ vfs_fault_clear(void)
     vfs_fault.fired = 0;
 }
 
+void
+vfs_kind_trace_start(void)
+{
+    kind_trace_on    = 1;
+    vfs_kind_trace_n = 0;
+}
+
 /* returns nonzero if this call must fail */
 static int
 fault_tick(int kind)
@@ -425,6 +435,13 @@ fault_tick(int kind)
     if (vfs_fault.mask && !(vfs_fault.mask & (1u << kind)))
         return 0;
     long k = vfs_ncalls++;
+    if (kind_trace_on) {
+        if (vfs_kind_trace_n == vfs_kind_trace_cap) {
+            vfs_kind_trace_cap = vfs_kind_trace_cap ? vfs_kind_trace_cap * 2 : 1024;
+            vfs_kind_trace     = realloc(vfs_kind_trace, (size_t)vfs_kind_trace_cap);
+        }
+        vfs_kind_trace[vfs_kind_trace_n++] = (unsigned char)kind;
+    }
     if (vfs_fault.at < 0)
         return 0;
     if (k == vfs_fault.at || (vfs_fault.sticky && k > vfs_fault.at)) {
